@@ -304,8 +304,12 @@ func cmdCheck(args []string) int {
 			}
 		}
 	}
-	for _, m := range mismatches {
-		fmt.Println("ENGINE-MISMATCH", m)
+	for i, m := range mismatches {
+		if i < 8 {
+			fmt.Println("ENGINE-MISMATCH", m)
+		} else if i == 8 {
+			fmt.Printf("ENGINE-MISMATCH ... and %d more\n", len(mismatches)-8)
+		}
 		engineProblem = true
 	}
 
@@ -384,6 +388,7 @@ func cmdCheck(args []string) int {
 			"explore_wall_s":                rr.Wall.Seconds(),
 			"load_s":                        tLoad.Seconds(),
 			"stubs_validated":               stubReport,
+			"schedule_analysis":             map[string]int{"shared_written_objects": rr.RaceShared, "candidate_pairs": rr.RacePairs, "clock_queries": rr.RaceQueries, "pairs_discharged_unsat": rr.RaceDischarged},
 			"known_findings_hit":            knownHit,
 			"vacuity":                       map[string]interface{}{"problems": vac},
 			"repo_head":                     ld.repoHead,
